@@ -6,7 +6,7 @@ EXTENDS Transclusion, Json
 
 CONSTANTS Universe, Known   \* "Q" | "T";  Known = deviations currently listed as findings
 
-KnownC04 == {}
+KnownC04 == {"ArgTrailingNewlineDropped"}
 AllDevs == {"NamedValueTrimmedBeforeExpansion"}
 
 (* ---------------- constructors ---------------- *)
